@@ -114,6 +114,9 @@ func (k *checker) verdictPack(pi, lo, hi int) {
 	first := make([]int, hi-lo)
 	lastl := make([]int, hi-lo)
 	for i := lo; i < hi; i++ {
+		if !p.takes(k.seqs[i]) {
+			continue
+		}
 		lines := body(p, k.seqs[i])
 		fmt.Fprintf(&b, "fn c%d() {\n", i-lo)
 		first[i-lo] = ln
@@ -161,6 +164,9 @@ func (k *checker) verdictPack(pi, lo, hi int) {
 	for i := lo; i < hi; i++ {
 		j := i - lo
 		s := k.seqs[i]
+		if !p.takes(s) {
+			continue
+		}
 		cs := conflicts(s, p.paths(), false)
 		want := judge(cs)
 		rej, msg := isRej[j], rejected[j]
@@ -490,7 +496,7 @@ func Run(c *vl.Ctx) {
 	// budgets count from here (the compiler and the runtime are built); levels are done
 	// shortest first, so a capped run is complete up to a smaller length
 	if quick {
-		c.SetBudget(time.Since(c.Start) + 75*time.Second)
+		c.SetBudget(time.Since(c.Start) + 150*time.Second)
 	} else {
 		c.SetBudget(13 * time.Minute)
 	}
@@ -691,6 +697,6 @@ func Run(c *vl.Ctx) {
 		"two different constant indices of one array (a[0] / a[1]) may or may not be treated as overlapping: counted, not judged",
 		"a by-value parameter is a local of the function (its storage dies with the call)")
 	c.Finish(vl.Coverage{Evaluations: atomic.LoadInt64(&k.evals) + catalogueEvals, Exhaustive: doneV == nLevels-1 && doneR == nLevels-1,
-		Rule:  fmt.Sprintf("all well-formed event sequences (15 event kinds: bind r1/r2 shared/mutable, read/write through, read/write the place, temporary &' to a callee, open/close block) of length <= %d x %d place pairs; oracle = loan model (live from bind to last use; &' loan vs any access, & loan vs write/&' borrow; overlap = path prefix); each must-reject sequence has its control twin in the same space; accepted sequences that print are run natively and compared with write-through semantics; plus the return/callee catalogue; distinct_nontrivial = sequences with at least one conflicting (event, loan) pair", maxLen, len(k.pairs)),
+		Rule:  fmt.Sprintf("all well-formed event sequences (16 event kinds: bind r1/r2 shared/mutable, bind r2 as a copy of the shared r1, read/write through, read/write the place, temporary &' to a callee, open/close block) of length <= %d x %d place pairs; oracle = loan model (live from bind to last use; &' loan vs any access, & loan vs write/&' borrow; overlap = path prefix); each must-reject sequence has its control twin in the same space; accepted sequences that print are run natively and compared with write-through semantics; plus the return/callee catalogue; distinct_nontrivial = sequences with at least one conflicting (event, loan) pair", maxLen, len(k.pairs)),
 		Bound: fmt.Sprintf("length<=%d%s (verdicts completed through level %d, executions through level %d) pairs=%s", maxLen, map[bool]string{true: " plus 5 nested-block sequences of length 5 as level 5", false: ""}[len(levelEnd) > maxLen+1], doneV, doneR, strings.Join(names, ",")+map[bool]string{true: " (at length 4: same-var,disjoint-fields,parent-child,elem-field)", false: ""}[quick && maxLen >= 4])})
 }
